@@ -1,6 +1,8 @@
 import Pyunicorn.Model.Random
+import Pyunicorn.Lemmas.RandomSrc
 /-! Helper lemmas for C17 (core Lean only). -/
 namespace Pyunicorn.Random
+open Pyunicorn.Generated.StructC17
 
 theorem rsum_congr {f g : Nat → Int} (n : Nat) (h : ∀ j, j < n → f j = g j) :
     rsum f n = rsum g n := by
@@ -77,7 +79,7 @@ theorem rewire_apply (A : Adj) (s t k l a b : Nat)
       if (a = s ∧ b = l) ∨ (a = l ∧ b = s) ∨ (a = t ∧ b = k) ∨ (a = k ∧ b = t) then true
       else if (a = s ∧ b = t) ∨ (a = t ∧ b = s) ∨ (a = k ∧ b = l) ∨ (a = l ∧ b = k) then false
       else A a b := by
-  unfold rewire Adj.set
+  simp only [rewire, applyWrites, geoWrites, List.foldl_cons, List.foldl_nil, Adj.set]
   grind
 
 
@@ -88,7 +90,7 @@ theorem deg_rewire (A : Adj) (n s t k l v : Nat)
     (h1 : A s t = true) (h2 : A t s = true) (h3 : A k l = true) (h4 : A l k = true)
     (h5 : A s l = false) (h6 : A l s = false) (h7 : A t k = false) (h8 : A k t = false) :
     deg (rewire A s t k l) n v = deg A n v := by
-  unfold rewire
+  simp only [rewire, applyWrites, geoWrites, List.foldl_cons, List.foldl_nil]
   simp only [deg_set]
   simp [Adj.set, *]
   grind [b2i]
@@ -114,6 +116,7 @@ theorem geoStep_cases (c : GeoCfg) (st st' : GeoSt) (d : Nat × Nat)
               edges := (st.edges.set d.1 (s, l)).set d.2 (k, t)
               i := st.i + 1 } := by
   unfold geoStep at h
+  simp only [geoAcceptM_eq, rewireM_eq, (geoEdges_eq _ _ _ _).1, (geoEdges_eq _ _ _ _).2] at h
   split at h
   · rename_i s t k l h1 h2
     split at h
